@@ -1,51 +1,167 @@
 package main
 
 import (
+	"bytes"
 	"fmt"
+	"os"
+	"os/exec"
+	"strconv"
+	"strings"
 	"sync"
 
 	"github.com/remieven/ysgo/verifx/internal/checks"
 )
 
-// raceC18 creates and drives independent runners from several goroutines at once, starting cold
-// (the very first parses of the process race for the lazily built static data of the recognisers).
+// raceC18 creates and drives independent runners from several goroutines at once. A process can only once be
+// cold (the very first parses race for the lazily built static data of the recognisers, the very first use of a
+// feature races for whatever the library builds lazily for it), so the pass runs several fresh child processes,
+// each in one of two modes and with another rotation of the tasks over the goroutines:
+//
+//	free     every goroutine creates and steps its runner as fast as it can (creations overlap steppings)
+//	barrier  every goroutine creates its runner, all wait for one another, then all step at once (the first calls
+//	         of Next of the process overlap; nothing but the barrier orders the goroutines)
 func raceC18(tier string) {
+	if mode := os.Getenv("VRACE_C18_MODE"); mode != "" {
+		rot, _ := strconv.Atoi(os.Getenv("VRACE_C18_ROT"))
+		raceC18Child(tier, mode, rot)
+		return
+	}
+	type cfg struct {
+		mode string
+		rot  int
+	}
+	cfgs := []cfg{{"free", 0}, {"barrier", 0}, {"barrier", 4}, {"barrier", 9}}
+	if tier == "thorough" {
+		for r := 1; r <= 10; r++ {
+			cfgs = append(cfgs, cfg{"barrier", r}, cfg{"free", r})
+		}
+	}
+	total := 0
+	var mu sync.Mutex
+	var wg sync.WaitGroup
+	sem := make(chan struct{}, 4)
+	for _, c := range cfgs {
+		wg.Add(1)
+		go func(c cfg) {
+			defer wg.Done()
+			sem <- struct{}{}
+			defer func() { <-sem }()
+			cmd := exec.Command(os.Args[0], "C18", tier)
+			cmd.Env = append(os.Environ(), "VRACE_C18_MODE="+c.mode, "VRACE_C18_ROT="+strconv.Itoa(c.rot))
+			var so, se bytes.Buffer
+			cmd.Stdout, cmd.Stderr = &so, &se
+			err := cmd.Run()
+			mu.Lock()
+			defer mu.Unlock()
+			os.Stderr.Write(se.Bytes())
+			runs := -1
+			for _, line := range strings.Split(so.String(), "\n") {
+				var k int
+				if _, e := fmt.Sscanf(line, "RACE-RUNS %d", &k); e == nil {
+					runs = k
+					continue
+				}
+				if line != "" {
+					fmt.Println(line)
+				}
+			}
+			if runs >= 0 {
+				total += runs
+			}
+			raced := strings.Contains(se.String(), "WARNING: DATA RACE") || strings.Contains(se.String(), "fatal error: concurrent map")
+			if (err != nil || runs < 0) && !raced {
+				fmt.Printf("RACE-HARNESS-ERROR child %s/%d failed: %v: %s\n", c.mode, c.rot, err, tail(se.String(), 600))
+			}
+		}(c)
+	}
+	wg.Wait()
+	fmt.Printf("RACE-RUNS %d\n", total)
+}
+
+func tail(s string, n int) string {
+	if len(s) > n {
+		return s[len(s)-n:]
+	}
+	return s
+}
+
+func raceC18Child(tier, mode string, rot int) {
 	rounds, goroutines := 6, 8
 	if tier == "thorough" {
-		rounds = 40
+		rounds = 20
 	}
-	names, tasks := checks.C18RaceTasks()
-	// cold start: no task has run yet in this process; the reference traces are taken from the
-	// first concurrent round itself and compared later with a sequential run
+	names, tasks := checks.C18RaceTasksHooked()
 	runs := 0
 	var mu sync.Mutex
 	got := map[string]map[string]int{}
+	record := func(i int, tr string) {
+		mu.Lock()
+		if got[names[i]] == nil {
+			got[names[i]] = map[string]int{}
+		}
+		got[names[i]][tr]++
+		runs++
+		mu.Unlock()
+	}
 	for r := 0; r < rounds; r++ {
 		var wg sync.WaitGroup
-		for g := 0; g < goroutines; g++ {
-			wg.Add(1)
-			go func(g int) {
-				defer wg.Done()
-				for k := 0; k < len(tasks); k++ {
-					i := (g + k + r) % len(tasks)
-					tr := tasks[i]()
-					mu.Lock()
-					if got[names[i]] == nil {
-						got[names[i]] = map[string]int{}
+		switch mode {
+		case "free":
+			for g := 0; g < goroutines; g++ {
+				wg.Add(1)
+				go func(g int) {
+					defer wg.Done()
+					// no lock is taken between the tasks of one goroutine: the results are recorded at the end
+					type res struct {
+						i  int
+						tr string
 					}
-					got[names[i]][tr]++
-					runs++
-					mu.Unlock()
-				}
-			}(g)
+					var mine []res
+					for k := 0; k < len(tasks); k++ {
+						i := (g + k + r + rot) % len(tasks)
+						mine = append(mine, res{i, tasks[i](func(int) {})})
+					}
+					for _, m := range mine {
+						record(m.i, m.tr)
+					}
+				}(g)
+			}
+		case "barrier":
+			// one task per goroutine and round; everyone waits after its creation until all have created
+			var arrived sync.WaitGroup
+			arrived.Add(goroutines)
+			release := make(chan struct{})
+			go func() { arrived.Wait(); close(release) }()
+			for g := 0; g < goroutines; g++ {
+				wg.Add(1)
+				go func(g int) {
+					defer wg.Done()
+					i := (g + r*goroutines + rot) % len(tasks)
+					once := false
+					arrive := func() {
+						if !once {
+							once = true
+							arrived.Done()
+							<-release
+						}
+					}
+					tr := tasks[i](func(call int) {
+						if call == 1 {
+							arrive()
+						}
+					})
+					arrive() // a task whose load failed never makes a second call
+					record(i, tr)
+				}(g)
+			}
 		}
 		wg.Wait()
 	}
 	for i, n := range names {
-		alone := tasks[i]()
+		alone := tasks[i](func(int) {})
 		for tr := range got[n] {
 			if tr != alone {
-				fmt.Printf("RACE-TRACE-MISMATCH task %q: concurrently %s; alone %s\n", n, tr, alone)
+				fmt.Printf("RACE-TRACE-MISMATCH task %q (%s mode): concurrently %s; alone %s\n", n, mode, tr, alone)
 			}
 		}
 	}
